@@ -1347,7 +1347,7 @@ pub fn stages(ctx: &Ctx) -> Vec<Stage> {
             dispatch(tag, &mut rng, rep, k);
         }
     }));
-    let n = tier.pick(20_000u64, 400_000u64);
+    let n = tier.pick(40_000u64, 400_000u64);
     let n_err = tier.pick(8_800u64, 88_000u64);
     for (t, tag) in STAGE_TAGS.iter().enumerate() {
         let cases = if *tag == "errs" { n_err } else { n };
